@@ -48,19 +48,58 @@ def _merge_observed(dst: dict, src: dict) -> None:
 
 
 def _run_one(prop: str, spec: dict, workdir: str, idx: int, timeout: float,
-             retries: int = 3) -> dict:
-    """Run one shard; a death by signal (flaky native crash in the tree-sitter binding,
-    see DESIGN section 8) is retried, and the number of retries is reported."""
+             retries: int = 10) -> dict:
+    """Run one shard.  When the worker dies by a signal, the last text handed to the
+    library (write-ahead log) is re-executed alone in a scratch interpreter; if that
+    reproduces the death the input is quarantined (reported as an `interpreter-death`
+    witness by the check) and the shard is re-run without it.  A death that does not
+    reproduce is retried as is."""
     attempts = 0
+    skip: list[str] = []
+    deaths: list[dict] = []
     while True:
-        r = _run_once(prop, spec, workdir, idx, timeout)
+        r = _run_once(prop, spec, workdir, idx, timeout, skip)
         r["signal_retries"] = attempts
+        r["deaths"] = deaths
         if r["status"] != "signal" or attempts >= retries:
             return r
         attempts += 1
+        last = r.get("last_case") or ""
+        if last.startswith("T "):
+            try:
+                text = json.loads(last[2:])
+            except ValueError:
+                text = None
+            if text is not None and _confirm_death(text):
+                import hashlib
+                skip.append(hashlib.sha1(text.encode("utf-8", "replace")).hexdigest()[:20])
+                deaths.append({"text": text, "signal": -(r["rc"] or 0)})
 
 
-def _run_once(prop: str, spec: dict, workdir: str, idx: int, timeout: float) -> dict:
+_CONFIRM = """
+import sys, json
+sys.path.insert(0, sys.argv[1])
+from nix_manipulator import parse
+t = json.loads(sys.stdin.read())
+for _ in range(25):
+    try:
+        parse(t).rebuild()
+    except Exception:
+        pass
+"""
+
+
+def _confirm_death(text: str) -> bool:
+    try:
+        cp = subprocess.run([PY, "-c", _CONFIRM, REPO], input=json.dumps(text).encode(),
+                            capture_output=True, timeout=300)
+    except subprocess.TimeoutExpired:
+        return False
+    return cp.returncode < 0
+
+
+def _run_once(prop: str, spec: dict, workdir: str, idx: int, timeout: float,
+              skip: list[str] | None = None) -> dict:
     spec_path = os.path.join(workdir, f"spec{idx}.json")
     out_path = os.path.join(workdir, f"out{idx}.json")
     wal_path = os.path.join(workdir, f"wal{idx}.txt")
@@ -75,6 +114,10 @@ def _run_once(prop: str, spec: dict, workdir: str, idx: int, timeout: float) -> 
     env.setdefault("PYTHONHASHSEED", "0")
     env["NIMA_REPO"] = REPO
     env["NIMA_WAL"] = wal_path
+    skip_path = os.path.join(workdir, f"skip{idx}.json")
+    with open(skip_path, "w") as fh:
+        json.dump(skip or [], fh)
+    env["NIMA_SKIP_FILE"] = skip_path
     cmd = [PY, "-X", "faulthandler", "-m", "nmverif.worker", prop, spec_path, out_path]
     t0 = time.time()
     status = "ok"
@@ -132,6 +175,11 @@ def execute(check, tier: str, seed: int) -> int:
             for fut in futs:
                 r = fut.result()
                 st = r["status"]
+                for death in r.get("deaths", []):
+                    merged["observed"]["interpreter_deaths_confirmed"] = (
+                        merged["observed"].get("interpreter_deaths_confirmed", 0) + 1)
+                    if len(merged.setdefault("deaths", [])) < 20:
+                        merged["deaths"].append(death)
                 if r.get("signal_retries"):
                     merged["observed"]["native_crash_retries"] = (
                         merged["observed"].get("native_crash_retries", 0) + r["signal_retries"])
